@@ -151,6 +151,15 @@ fn backing(kind: SKind, pairs: &Pairs) -> Result<Vec<u8>, String> {
 }
 
 pub fn check(c: &Case, rec: &mut Rec) -> CheckResult {
+    // the FSTs here only carry the streams' content: a small node cache avoids the
+    // 1 MB allocation of the default geometry for each of the k + k^2 builds
+    fst::raw::verif::set_registry_geometry(Some((64, 2)));
+    let r = check_inner(c, rec);
+    fst::raw::verif::set_registry_geometry(None);
+    r
+}
+
+fn check_inner(c: &Case, rec: &mut Rec) -> CheckResult {
     let k = c.streams.len();
     let models: Vec<BTreeMap<Vec<u8>, u64>> = c.streams.iter().map(|(_, p)| p.iter().cloned().collect()).collect();
     let mut fsts: Vec<Fst<Vec<u8>>> = vec![];
@@ -265,6 +274,27 @@ pub fn check(c: &Case, rec: &mut Rec) -> CheckResult {
         cmp_result("map extend().union()", c, &got, &want, true)?;
         let (got, _) = drain_keys!(sets.iter().collect::<fst::set::OpBuilder>().intersection());
         cmp_result("set collect().intersection()", c, &got, &expected(&models, Op::Intersection), false)?;
+        // Fst::op() / Map::op() / Set::op(): a builder that already holds `self`
+        if k >= 2 {
+            let mut ob = fsts[0].op();
+            for f in &fsts[1..] {
+                ob = ob.add(f);
+            }
+            let (got, _) = drain!(ob.difference());
+            cmp_result("Fst::op().add().difference()", c, &got, &expected(&models, Op::Difference), true)?;
+            let mut ob = maps[0].op();
+            for m in &maps[1..] {
+                ob.push(m);
+            }
+            let (got, _) = drain!(ob.intersection());
+            cmp_result("Map::op().push().intersection()", c, &got, &expected(&models, Op::Intersection), true)?;
+            let mut ob = sets[0].op();
+            for s in &sets[1..] {
+                ob = ob.add(s);
+            }
+            let (got, _) = drain_keys!(ob.symmetric_difference());
+            cmp_result("Set::op().add().symmetric_difference()", c, &got, &expected(&models, Op::SymDiff), false)?;
+        }
         let mut ob = fst::raw::OpBuilder::new();
         for f in &fsts {
             ob = ob.add(f);
@@ -274,12 +304,12 @@ pub fn check(c: &Case, rec: &mut Rec) -> CheckResult {
     }
     // predicates, all ordered pairs
     for i in 0..k {
+        // receivers must be whole FSTs: use plain builds of the content
+        let fa = Fst::new(gen::build_plain(&c.streams[i].1, false).map_err(|e| Fail::new("build-error", e))?).unwrap();
+        let sa = fst::Set::new(fa.as_bytes().to_vec()).unwrap();
         for j in 0..k {
             let a: BTreeSet<&Vec<u8>> = models[i].keys().collect();
             let b: BTreeSet<&Vec<u8>> = models[j].keys().collect();
-            // receivers must be whole FSTs: use plain builds of the content
-            let fa = Fst::new(gen::build_plain(&c.streams[i].1, false).map_err(|e| Fail::new("build-error", e))?).unwrap();
-            let sa = fst::Set::new(fa.as_bytes().to_vec()).unwrap();
             macro_rules! arg_raw {
                 () => {
                     fsts[j].range().ge(&lows[j]).lt("z")
@@ -382,7 +412,7 @@ pub fn run(e: &Engine) {
     });
     e.run_prop(
         "random-tuples-k<=6",
-        e.tier.pick(40_000, 1_000_000),
+        e.tier.pick(100_000, 2_000_000),
         || {
             (proptest::collection::vec((kind_strategy(), stream_pairs(), prop::bool::weighted(0.15)), 1..=6)).prop_map(|v| {
                 let mut streams: Vec<(SKind, Pairs)> = vec![];
